@@ -408,6 +408,10 @@ def run(ctx):
         ctx.sample({"rfc6979_term": {"id": recs_toy[0]["id"], "defs": recs_toy[0]["defs"][:2], "candidates": recs_toy[0]["cands"][:1]}})
         _production(ctx, params, recs_prod)
 
+    # ---- 4b. the DER wrapper: Key.verify on encodings prepared and judged by MC_ECDSADer / DerSig.tla
+    if _only(ctx, "der"):
+        _der_stage(ctx, params)
+
     # ---- 5. traces
     if _only(ctx, "traces"):
         _traces(ctx, params, queue)
@@ -600,6 +604,84 @@ def _check_prod_case(ctx, name, be, ref, c, o):
                               "C01|Key.verify|%s|%s|expected=%s|got=%s" % (lab, fld, exp, o[fld])
                         fail(key, "Key.verify %s: expected %s, got %s" % (fld, exp, o[fld]))
     return cnt
+
+
+# ----------------------------------------------------------------------------- DER wrapper (Key.verify)
+
+def _der_cases(params, want_per_class):
+    """valid signatures on each production curve, classified by the top bits of r and s: nonces k = 1, 2, .. fix r,
+    hashes z = 1, 2, .. vary s; all computed with the reference of ECDSA.tla's SigOf and checked with ref_verify"""
+    out = {}
+    for name, pr in params.items():
+        ref = RefCurve(*pr)
+        n = ref.n
+        d = (0xC01D00D << 200) % n + 3
+        Q = ref.mul(d, ref.G)
+        found = {}
+        k = 0
+        while len(found) < 4 * want_per_class and k < 60:
+            k += 1
+            for z in range(1, 9):
+                sg = drv.ref_sig(ref, d, z, k)
+                if not (sg["r"] and sg["s"]):
+                    continue
+                cls = (sg["r"] >> 255, sg["s"] >> 255)
+                if sum(1 for kk in found if kk[0] == cls) < want_per_class and (cls, k, z) not in found:
+                    if not drv.ref_verify(ref, Q, z, sg["r"], sg["s"]):
+                        raise MachineryError("reference signature does not verify")
+                    found[(cls, k, z)] = {"d": d, "Q": Q, "z": z, "r": sg["r"], "s": sg["s"], "cls": cls}
+        if {kk[0] for kk in found} != {(0, 0), (0, 1), (1, 0), (1, 1)}:
+            raise MachineryError("could not find signatures with every top-bit pattern on " + name)
+        out[name] = [found[kk] for kk in sorted(found)]
+    return out
+
+
+def _der_stage(ctx, params):
+    cases = _der_cases(params, 1 if ctx.quick else 3)
+    flat = [(name, cs) for name in sorted(cases) for cs in cases[name]]
+    path = _case_file([{"r": list(cs["r"].to_bytes(32, "big")), "s": list(cs["s"].to_bytes(32, "big"))} for _, cs in flat])
+    try:
+        r = ctx.tlc("MC_ECDSADer", "MC_ECDSADer", workers=4, env={"CASE_FILE": path}, timeout=600)
+    finally:
+        os.unlink(path)
+    recs = {x["ci"]: x for x in r.records if x.get("k") == "der"}
+    if len(recs) != len(flat):
+        raise MachineryError("MC_ECDSADer printed %d of %d cases" % (len(recs), len(flat)))
+    jobs = []
+    for name in sorted(cases):
+        idx = [i for i, (nm, _) in enumerate(flat) if nm == name]
+        for native in ("python", ""):
+            job_cases, blobs_of = [], []
+            for i in idx:
+                cs = flat[i][1]
+                bl = sorted(recs[i + 1]["blobs"], key=lambda b: b["name"])
+                blobs_of.append(bl)
+                job_cases.append({"Q": [hex(cs["Q"][0]), hex(cs["Q"][1])], "z": hex(cs["z"]), "blobs": [bytes(b["blob"]).hex() for b in bl]})
+            jobs.append((name, native, (idx, blobs_of), {"what": "der", "curve": name, "cases": job_cases}))
+    total = 0
+    for (name, native, (idx, blobs_of), _), res in _run_jobs(jobs):
+        lab = "%s/%s" % (name, res["backend"])
+        for i, bl, outs in zip(idx, blobs_of, res["out"]):
+            cs = flat[i][1]
+            for b, got in zip(bl, outs):
+                total += 1
+                ctx.case(("der", name, res["backend"], b["name"], cs["cls"]), 0)
+                want = b["verdict"]
+                if want == "other-value":
+                    raise MachineryError("DER variant %s does not present the signature" % b["name"])
+                ok = (got is True) if want == "true" else (got is False) if want == "false" else (got is True or got is False)
+                if not ok:
+                    cls = "negative_integer" if "negative" in b["dev"] else "unreadable" if want == "false" else "canonical" if want == "true" else "non_der"
+                    ctx.fail("C01|Key.verify|der|%s|expected=%s|got=%s" % (cls, want, got),
+                             "Key.verify(hash, DER blob) on %s, variant %s (deviations from DER: %s): the property demands %s, got %s; r=%#x s=%#x blob=%s" % (
+                                 lab, b["name"], b["dev"], want, got, cs["r"], cs["s"], bytes(b["blob"]).hex()),
+                             {"curve": name, "backend": res["backend"], "variant": b["name"], "dev": b["dev"], "expected": want, "got": got,
+                              "Q": [hex(v) for v in cs["Q"]], "z": cs["z"], "r": hex(cs["r"]), "s": hex(cs["s"]), "blob": bytes(b["blob"]).hex()})
+    ctx.case(None, total)
+    ctx.replayed += total
+    ctx.action("replay.der_wrapper", total)
+    ctx.sample({"der_variant": {k: v for k, v in recs[1]["blobs"][0].items()}})
+    ctx.log("Key.verify DER wrapper: %d signatures x DER variants on secp256k1/secp256r1 x python/openssl: %d calls" % (len(flat), total))
 
 
 # ----------------------------------------------------------------------------- traces
